@@ -176,9 +176,12 @@ def run_c12(ctx):
 
         w.fault_hook = hook
 
+    held = {}
+
     def do_reap(crop_factory, **o):
         def f():
             c = crop_factory()
+            held["crop"] = c
             return c, c.reap(**o)
         return f
 
@@ -246,6 +249,14 @@ def run_c12(ctx):
             def factory():
                 right = fspec.build(m.fn)
                 return xyzpy.Crop(farmer=right, name=m.NAME, parent_dir=m.root)
+        elif held.get("crop") is not None and t.flag(1, 2, "retry-same-object"):
+            # the session whose reap failed corrects the cause and calls reap() again on
+            # the very same Crop (and farmer) object
+            same = held["crop"]
+            factory = lambda: same
+            ctx.stats["retry-on-same-object"] += 1
+            retry_opts = dict(retry_opts)
+            ctx.t("retry-same-object")
         else:
             factory = m.load_crop
         ctx.t("retry", retry_opts or "")
